@@ -305,7 +305,7 @@ func TestC13_FixedShapes(t *testing.T) {
 	// the offending token is the end of the input itself: a construct that is never closed.
 	// Its line is the line of the position just past the last byte (after a final line
 	// break that is the next line).
-	opens := []string{"@if(true)open", "@each(x in [1])open", "@for(i = 0; i < 1; i++)open", "{{ 1 +", "@if(true", "@insert(\"x\")open", "@if(false)a@elseif(true)b@else c", "{{ [1, 2"}
+	opens := []string{"@if(true)open", "@each(x in [1])open", "@for(i = 0; i < 1; i++)open", "{{ 1 +", "@if(true", "@insert(\"x\")open", "@if(false)a@elseif(true)b@else c", "{{ [1, 2", "{{-- never closed", "{{-- open\nover\nlines", "@if(true)a {{-- open\nin a block"}
 	endings := []string{"", "\n", "\n\n", " \n", "\r\n", "\n \t", "x\ny\n"}
 	for _, b := range befores {
 		for _, op := range opens {
@@ -315,13 +315,17 @@ func TestC13_FixedShapes(t *testing.T) {
 					continue
 				}
 				src := b.src + op + e
-				if strings.HasPrefix(op, "{{") || op == "@if(true" {
+				if strings.HasPrefix(op, "{{") && !strings.HasPrefix(op, "{{--") || op == "@if(true" {
 					// inside code the trailing text is code: keep it blank
 					if strings.Contains(e, "x") {
 						continue
 					}
 				}
 				cs := lineCase{Src: src, WantLine: 1 + strings.Count(src, "\n"), Fault: "end-of-input"}
+				if strings.Contains(op, "{{--") {
+					// a comment that is never closed is one token that runs to the last byte: its line is the line of that byte
+					cs.WantLine, cs.Fault = 1+strings.Count(src[:len(src)-1], "\n"), "open-comment"
+				}
 				c.CaseEnum(cs.WantLine > 1, "before:"+b.name, "fault:end-of-input")
 				if idx%97 == 0 {
 					c.Sample(map[string]any{"src": src, "want_line": cs.WantLine})
@@ -472,7 +476,7 @@ func TestC13_Trees(t *testing.T) {
 			}
 			page += "@insert(\"content\")\n" + fill() + compUse("1", "\n"+fill()+ff.src+"\n") + "@end\n"
 		case "page-component-arg":
-			if ff.parseTime || strings.HasPrefix(ff.src, "@") || strings.Contains(ff.kind, "-repeated-") || strings.Contains(ff.kind, "-at-") {
+			if ff.parseTime || strings.HasPrefix(ff.src, "@") || strings.Contains(ff.kind, "-repeated-") || strings.Contains(ff.kind, "-at-") || strings.Contains(ff.kind, "-multi-line-loop") {
 				ff = faultForm{"unknown-identifier", "{{ zzFault }}", false}
 				cs.Fault = ff.kind
 			}
